@@ -42,6 +42,9 @@ SKIP_GROUPING = os.environ.get('VF_C01_SKIP_GROUPING') == '1'
 # committed witness of the open finding range-bound-reevaluated-each-iteration (vf.gen.typed keeps range_bound_mutation off)
 WITNESS_RANGE_BOUND = 'def bound(n: int) -> int:\n\tc = n\n\tt = 0\n\tfor i in range(c):\n\t\tc += 1\n\t\tt += 1\n\t\tif t > 50:\n\t\t\tbreak\n\treturn t\n'
 
+# committed witness of the open finding enumerate-index-redeclared (vf.gen.typed keeps enumerate index names unique)
+WITNESS_ENUMERATE_TWICE = 'def twice(n: int) -> int:\n\txs = [n, 2]\n\tt = 0\n\tfor i, x in enumerate(xs):\n\t\tt = t + i * x\n\tfor i, y in enumerate(xs):\n\t\tt = t + i + y\n\treturn t\n'
+
 _SESSION = None
 
 
@@ -228,12 +231,15 @@ def classify(v: dict) -> str | None:
 	"""Open finding 'comparison-chain-not-expanded': a chained comparison is emitted verbatim, so C++ evaluates `(a < b) <= c`.
 	Matched only when (1) the failing function is a single expression holding a chain and (2) the value the C++ side produced is exactly
 	what that C reading of the chain yields on these arguments – any other wrong value is a fresh violation."""
-	if v['kind'] != 'value-differs':
+	if v['kind'] != 'value-differs' and v['case'].get('kind') != 'witness-enumerate-twice':
 		return None
 	d = v['detail']
 	# Open finding 'range-bound-reevaluated-each-iteration': `for i in range(c)` is emitted as `for (auto i = 0; i < c; i += 1)`, so a body
 	# that changes what the bound mentions changes the trip count. Matched only on the committed witness and only on the value that
 	# re-evaluation yields there (51 trips instead of n).
+	if v['case'].get('kind') == 'witness-enumerate-twice':
+		# Open finding 'enumerate-index-redeclared': matched only on the committed witness and on that diagnostic
+		return 'enumerate-index-redeclared' if v['kind'] == 'cpp-compile-error' and re.search(r"redeclaration of .int i.", v['detail'] + str(v['case'].get('diagnostics', ''))) else None
 	if v['case'].get('kind') == 'witness-range-bound':
 		return 'range-bound-reevaluated-each-iteration' if re.match(r"bound\(\d+,\): CPython -> 'ok\\t\d+', C\+\+ -> 'ok\\t51'", d) else None
 	m = re.search(r'expression: (.*?)\]', d)
@@ -283,6 +289,8 @@ def shard(ctx: Ctx, acc: Acc) -> None:
 				uid += 1
 		if ctx.shard == 0:
 			from vf.gen.typed import Entry, Program, INT
+			units.append(Unit(uid, Program(WITNESS_ENUMERATE_TWICE, [Entry('twice', [('n', INT)], INT, [[3]])], {}, {}, set(), []), 'witness-enumerate-twice'))
+			uid += 1
 			units.append(Unit(uid, Program(WITNESS_RANGE_BOUND, [Entry('bound', [('n', INT)], INT, [[3], [7]])], {}, {}, set(), []), 'witness-range-bound'))
 			uid += 1
 		n = N_PROGRAMS[ctx.tier]
